@@ -310,6 +310,9 @@ func TestC11_Rapid(t *testing.T) {
 	defer finish(t, rec)
 	runRapid(t, pick(40000, 300000), 11, func(rt *rapid.T) {
 		n := rapid.IntRange(0, 40).Draw(rt, "len")
+		if rapid.IntRange(0, 15).Draw(rt, "long") == 0 {
+			n = rapid.IntRange(40, 2600).Draw(rt, "longlen") // offsets past 256 / 1024 / 2048, line numbers past 10 and 100
+		}
 		var sb strings.Builder
 		for i := 0; i < n; i++ {
 			switch rapid.IntRange(0, 5).Draw(rt, "k") {
@@ -323,7 +326,29 @@ func TestC11_Rapid(t *testing.T) {
 				sb.WriteByte('x')
 			}
 		}
+		content := []rune(sb.String())
+		if len(content) > 0 && rapid.IntRange(0, 19).Draw(rt, "prefix") == 0 {
+			content[0] = rapid.SampledFrom(unicodeSpecials).Draw(rt, "first")
+			sb.Reset()
+			sb.WriteString(string(content))
+		}
+		if len(content) > 200 {
+			// plant line-break patterns across power-of-two offsets (block boundaries of caches / checkpoints)
+			for _, b := range []int{64, 128, 256, 512, 1024, 2048} {
+				if b < len(content)-1 && rapid.Bool().Draw(rt, "plant") {
+					pat := []rune(rapid.SampledFrom([]string{"\n\r", "\r\n", "\n\n", "\r\r", "x\r", "\rx", "\nx", "x\n"}).Draw(rt, "pat"))
+					content[b-1], content[b] = pat[0], pat[1]
+				}
+			}
+			sb.Reset()
+			sb.WriteString(string(content))
+		}
 		ops := rapid.SliceOfN(rapid.SampledFrom([]int{opRead, opRead, opRead, opRead, opUnread, opUnread, opUnread2, opUnread3, opReset, opPeek, opPeekLine, opPeekColumn}), 0, 60).Draw(rt, "ops")
+		if n > 40 {
+			// walk deep into long contents first, then work there
+			walk := make([]int, rapid.IntRange(n/2, n+2).Draw(rt, "walk"))
+			ops = append(walk, ops...)
+		}
 		c := c11Case{sb.String(), ops}
 		nt, labels := c11Classify(c)
 		rec.Case(c.Content+"|"+string(opsKey(ops)), nt, func() interface{} { return c }, labels...)
